@@ -42,3 +42,44 @@ def fdiv (a b : Int) : Int := Int.fdiv a b
 def fmod (a b : Int) : Int := Int.fmod a b
 
 end Hdc.Py
+
+namespace Hdc.Py
+
+inductive PyErr where
+  | valueError
+  | assertionError
+  | overflowError
+  | typeError
+  deriving DecidableEq, Repr
+
+/-- Python slice `s[a:b]` on a string of ASCII characters (step 1; negative indices wrap) -/
+def slice (s : String) (a b : Option Int) : String :=
+  let cs := s.toList
+  let n : Int := cs.length
+  let norm (i : Int) : Nat := (if i < 0 then max 0 (i + n) else min i n).toNat
+  let lo := match a with | none => 0 | some i => norm i
+  let hi := match b with | none => cs.length | some i => norm i
+  String.ofList ((cs.drop lo).take (hi - lo))
+
+/-- `int(s)` for a non-empty string of ASCII decimal digits (what the label grammar produces);
+    anything else is a ValueError in this model (Python additionally accepts signs, blanks, underscores
+    and non-ASCII digits: out of model) -/
+def int (s : String) : Except PyErr Int :=
+  let cs := s.toList
+  if cs.isEmpty then .error .valueError
+  else if cs.all Char.isDigit then .ok (cs.foldl (fun acc c => acc * 10 + ((c.toNat - '0'.toNat : Nat) : Int)) 0)
+  else .error .valueError
+
+/-- decimal digits of a natural number -/
+def digits (n : Nat) : List Char := (Nat.toDigits 10 n)
+
+/-- `format(v, "0{w}d")`: zero padded to width `w`, sign counted in the width -/
+def fmtInt (w : Nat) (v : Int) : String :=
+  let ds := digits v.natAbs
+  let sign := if v < 0 then ['-'] else []
+  let pad := List.replicate (w - (ds.length + sign.length)) '0'
+  String.ofList (sign ++ pad ++ ds)
+
+def assert (c : Bool) : Except PyErr Unit := if c then .ok () else .error .assertionError
+
+end Hdc.Py
